@@ -78,7 +78,8 @@ fn comp_stats(kind: &CK, ci: usize, cols: &[Vec<f64>], r: &mut Sm) -> Vec<Stat> 
             let b = bounds.as_ref().unwrap();
             for (i, col) in cols.iter().enumerate() {
                 let (lo, hi) = b[i];
-                out.push(Stat { name: format!("c{ci}.x{i}~U({lo},{hi})"), values: col.clone(), cdf: Box::new(move |x| (x - lo) / (hi - lo)), direct: None });
+                // (halved operands: the width of a finite interval may overflow)
+                out.push(Stat { name: format!("c{ci}.x{i}~U({lo},{hi})"), values: col.clone(), cdf: Box::new(move |x| (x / 2.0 - lo / 2.0) / (hi / 2.0 - lo / 2.0)), direct: None });
             }
         }
         CK::So2 { bounds } => {
@@ -236,6 +237,10 @@ fn check_setting(ctx: &Ctx, setting: &Setting, seed: u64, n_target: usize) {
     let mut r = Sm::derive(seed, &[14, spec.width() as u64]);
     let cols = match draw(setting, seed, n) {
         Ok(c) => c,
+        Err(e) if setting.via == "may-refuse" && e.contains("UnboundedDimension") => {
+            ctx.count("settings_refused_with_the_documented_error", 1);
+            return;
+        }
         Err(e) => {
             ctx.inconclusive(format!("sampling failed on {}: {e}", spec.describe()));
             return;
@@ -338,6 +343,9 @@ fn settings(r: &mut Sm, k: usize) -> Vec<Setting> {
             })
             .collect()
     };
+    // a finite interval whose width overflows: the sampler may refuse it (documented error), but
+    // if it samples, the law must still be uniform
+    v.push(Setting { spec: Spec::plain(Wrap::R, CK::R { n: 1, bounds: Some(vec![(-1.7e308, 0.2e308)]) }, None), via: "may-refuse" });
     for i in 0..k {
         let n = [1usize, 3, 6, 2, 4, 5, 6, 2][i % 8];
         v.push(Setting { spec: Spec::plain(Wrap::R, CK::R { n, bounds: Some(rb(r, n)) }, None), via: "direct" });
@@ -349,7 +357,13 @@ fn settings(r: &mut Sm, k: usize) -> Vec<Setting> {
             Some((a.min(bq), a.max(bq) + 1e-3))
         };
         v.push(Setting { spec: Spec::plain(Wrap::So2, CK::So2 { bounds: s2 }, None), via: "direct" });
-        let s3 = if i % 3 == 0 { None } else { Some((r.quat(), *r.pick(&[0.6, 1.0, 1.5707963267948966, 2.2, 3.0]))) };
+        // every run covers the unbounded group and, cycling with the setting index, narrow,
+        // right-angle and wide cones
+        let cone_radii = [1.0, 2.2, 0.6, 1.5, 3.0, 1.5707963267948966, 1.2, 2.8];
+        let s3 = if i == 0 { None } else { Some((r.quat(), cone_radii[(i - 1) % cone_radii.len()])) };
+        if i == 0 {
+            v.push(Setting { spec: Spec::plain(Wrap::So3, CK::So3 { bounds: Some((r.quat(), 1.0)) }, None), via: "direct" });
+        }
         v.push(Setting { spec: Spec::plain(Wrap::So3, CK::So3 { bounds: s3 }, None), via: "direct" });
         // tight cones: few samples are affordable (rejection cost ~ radius^-3), which is still
         // enough to see gross defects such as mass piling up on the boundary
